@@ -91,14 +91,14 @@ macro_rules! map_impl {
                 MapCollection::delete_by_index(self, h)
             }
             fn get(&self, k: i32) -> Option<Seen> {
-                MapCollection::get_value(self, IKey(k)).map(|t| (t.0 .0, t.0 .0, t.0 .1))
+                MapCollection::get_value(self, IKey(k)).map(|t| (t.key(), t.key(), t.ver()))
             }
             fn read(&self, h: u32) -> Seen {
                 let t = MapCollection::value_by_index(self, h);
-                (t.0 .0, t.0 .0, t.0 .1)
+                (t.key(), t.key(), t.ver())
             }
             fn write(&mut self, h: u32, ver: u32) {
-                MapCollection::value_by_index_mut(self, h).0 .1 = ver;
+                MapCollection::value_by_index_mut(self, h).set_ver(ver);
             }
             fn first(&self, p: i32) -> u32 {
                 MapCollection::first_index_less(self, IKey(p))
@@ -213,14 +213,14 @@ macro_rules! set_impl {
                 SetCollection::<IKey, Rec>::delete_by_index(self, h)
             }
             fn get(&self, k: i32) -> Option<Seen> {
-                SetCollection::<IKey, Rec>::get_value(self, &IKey(k)).map(|r| (r.key.0, r.payload.0 .0, r.payload.0 .1))
+                SetCollection::<IKey, Rec>::get_value(self, &IKey(k)).map(|r| (r.key.0, r.payload.key(), r.payload.ver()))
             }
             fn read(&self, h: u32) -> Seen {
                 let r = SetCollection::<IKey, Rec>::value_by_index(self, h);
-                (r.key.0, r.payload.0 .0, r.payload.0 .1)
+                (r.key.0, r.payload.key(), r.payload.ver())
             }
             fn write(&mut self, h: u32, ver: u32) {
-                SetCollection::<IKey, Rec>::value_by_index_mut(self, h).payload.0 .1 = ver;
+                SetCollection::<IKey, Rec>::value_by_index_mut(self, h).payload.set_ver(ver);
             }
             fn first(&self, p: i32) -> u32 {
                 SetCollection::<IKey, Rec>::first_index_less(self, &IKey(p))
@@ -462,7 +462,7 @@ impl OrdWorld {
         let cfg = self.cfg.clone();
         let c: &Box<dyn OColl> = if twin { self.twins[ci].as_ref().unwrap() } else { &self.colls[ci] };
         let name = if twin { twin_name(c.name()) } else { c.name() };
-        let owned = !twin;
+        let owned = !twin && cfg.has(O_OGET | O_OFIRST | O_OHANDLE | O_TORN | O_TWIN);
         let with_first = Self::sweep_with_first(&cfg);
         let mut out = Vec::with_capacity(keys.len() * 2 + 1);
         for q in keys {
@@ -816,9 +816,11 @@ impl OrdWorld {
                     return vec![];
                 }
                 let h = c.first(k);
-                if h == EMPTY_REF {
-                    // no handle for a stored key: a wrong answer of the handle query, and the
-                    // sentinel must not be passed on (that would leave the contract)
+                if h == EMPTY_REF || c.read(h).0 != k {
+                    // no (or a wrong) handle for a stored key: a wrong answer of the handle
+                    // query, which is C08's business; the sentinel must not be passed on
+                    // (that would leave the contract) and the neighbour step of another
+                    // entry says nothing about this one
                     return vec![NO_HANDLE];
                 }
                 let nh = if matches!(op, Op::ONext { .. }) { c.next(h) } else { c.prev(h) };
@@ -832,6 +834,10 @@ impl OrdWorld {
                 for forward in [true, false] {
                     // forwards from the smallest stored key, backwards from the largest (predecessor of +inf)
                     let mut h = if forward { c.first(walk_start) } else { c.first(i32::MAX) };
+                    if h == EMPTY_REF || (forward && c.read(h).0 != walk_start) {
+                        // the handle query failed to designate the first entry (C08's business)
+                        return vec![NO_HANDLE];
+                    }
                     let mut steps = 0usize;
                     while h != EMPTY_REF && steps <= n_model + 1 {
                         out.push(Some(c.read(h)));
@@ -1040,7 +1046,11 @@ impl OrdWorld {
                     for g in &got {
                         ctx.mix(g.map(|s| (s.0 as u64).wrapping_mul(31).wrapping_add(s.2 as u64)).unwrap_or(17));
                     }
-                    if (observed || cfg.has(O_TORN)) && obit != 0 {
+                    let skip = got.len() == 1 && got[0] == Some((i32::MIN, i32::MIN, u32::MAX - 1));
+                    if skip {
+                        ctx.stats.bump("neigh.skipped_handle_query_gave_no_handle");
+                    }
+                    if (observed || cfg.has(O_TORN)) && obit != 0 && !skip {
                         ctx.stats.oracle_evals += 1;
                         if got != expect {
                             return Err(mismatch(
